@@ -153,7 +153,7 @@ func run(w []string) (res string, ok bool) {
 	}
 	n := len(iv) + len(sv)
 	need := map[string]int{"eqi": 2, "eqs": 2, "ordi": 2, "ords": 2, "tri": 3, "trs": 3, "cme": 2, "cmo": 2, "cmes": 2, "cmos": 2,
-		"fre": 2, "fro": 2, "sgi": 2, "sgs": 2, "moi": 3, "mos": 3, "mfi": 3, "mfs": 3}
+		"fre": 2, "fro": 2, "sgi": 2, "sgs": 2, "moi": 3, "mos": 3, "mfi": 3, "mfs": 3, "mmi": 3}
 	if want, known := need[w[0]]; !known || want != n {
 		return "", false
 	}
@@ -209,6 +209,9 @@ func run(w []string) (res string, ok bool) {
 		res = hx(m.Empty()) + " " + hx(m.Combine(sv[1], sv[2]))
 	case "mfi":
 		m := monoid.From[int](iv[0], semigroup.From[int](sub))
+		res = fmt.Sprintf("%d %d", m.Empty(), m.Combine(iv[1], iv[2]))
+	case "mmi": // From over a semigroup that is itself a monoid (with another identity): Empty is still the given element
+		m := monoid.From[int](iv[0], monoid.FromOp(iv[0]+17, sub))
 		res = fmt.Sprintf("%d %d", m.Empty(), m.Combine(iv[1], iv[2]))
 	case "mfs":
 		m := monoid.From[string](sv[0], semigroup.From[string](concat))
